@@ -194,7 +194,7 @@ func VerifC09_ShareWeights() {
 // queues whose over-quota weights and priorities are concrete menu entries (so the weighted product
 // is symbolic x constant, IEEE semantics in the FP theory) and whose requests and the surplus are
 // symbolic integers.
-// BOUND: 2 queues, no limits, no quota; over-quota weights in {1,2} each; same or different priority; k-value 0; surplus and requests symbolic integers < 2^3 (quick) / 2^5 (thorough)
+// BOUND: 2 queues, no limits, no quota; over-quota weights {1,2} x {1} (quick) / {1,2} x {1,2} (thorough); same or different priority; k-value 0; surplus and requests symbolic integers < 2^3 (quick) / 2^5 (thorough)
 func VerifC09_OverQuotaTwoQueues() {
 	res := rs.GpuResource
 	bits := vr.Bound("overQuotaBits", 3, 5)
@@ -207,8 +207,10 @@ func VerifC09_OverQuotaTwoQueues() {
 		s := q.ResourceShare(res)
 		s.Deserved, s.MaxAllowed, s.FairShare = 0, -1, 0
 		s.Request = vr.AnyFloatNat(name+".request", bits)
-		s.OverQuotaWeight = float64(vr.Choose(name+".weight", 2) + 1)
-		if i == 1 {
+		if i == 0 {
+			s.OverQuotaWeight = float64(vr.Choose(name+".weight", 2) + 1)
+		} else {
+			s.OverQuotaWeight = float64(vr.Choose(name+".weight", vr.Bound("weightsOfSecondQueue", 1, 2)) + 1)
 			q.Priority = vr.Choose("b.priority", 2)
 		}
 		queues[q.UID] = q
